@@ -32,6 +32,15 @@ def generate(rng, tier):
                               "focus": ["seg", f], "mode": m, "fixed": fixed, "ndim": rng.choice([2, 3, 4])})
                 cases.append({"k": "cropwin", "regime": regime, "dur": d, "step": s, "start": st, "n": n,
                               "focus": f, "mode": m})
+            # focuses shorter than a window, at and around both edges of the data (inverted strict ranges)
+            lo_, hi_ = st, st + n * s
+            edge = [[a, a + ln] for a in (lo_ - 1, lo_, lo_ + 1, lo_ + s, hi_ - d, hi_ - 1, hi_, hi_ + 1) for ln in range(0, d + 1)]
+            for f in (edge if tier == "thorough" else rng.sample(edge, min(len(edge), 10))):
+                m = rng.choice(list(MODES))
+                cases.append({"k": "crop", "regime": regime, "dur": d, "step": s, "start": st, "n": n,
+                              "focus": ["seg", f], "mode": "strict" if rng.random() < 0.6 else m, "fixed": None, "ndim": 2})
+                cases.append({"k": "cropwin", "regime": regime, "dur": d, "step": s, "start": st, "n": n,
+                              "focus": f, "mode": "strict" if rng.random() < 0.6 else m})
             for _ in range(12 if tier == "thorough" else 3):
                 tl = [[a, a + rng.randrange(0, 6)] for a in (rng.randrange(-8, hi) for _ in range(rng.randrange(0, 4)))]
                 cases.append({"k": "crop", "regime": regime, "dur": d, "step": s, "start": st, "n": n,
